@@ -194,7 +194,7 @@ def e2e(ck, cases, profile):
             if not reqs:
                 continue
             nd, nf = len(ck.disagreements), len(ck.oracle_fails)
-            res = ck.corr("limits", reqs, profile=profile, label=f"limits-e2e-{name}", timeout=3600)
+            res = ck.corr("limits", reqs, profile=profile, label=f"limits-e2e-{name}", timeout=(600 if ck.tier == "quick" else 3600))
             # never keep megabytes of request text in the evidence / replay files
             for d in ck.disagreements[nd:] + ck.oracle_fails[nf:]:
                 d["request"] = f"e2e-case {name}"
